@@ -80,7 +80,7 @@ PROBES = ['resp-checked', 'resp-checked:fault-free', 'resp-checked:faulty', 'kee
           'kind:stream', 'kind:nobody', 'kind:error', 'status-class:1', 'status-class:2', 'status-class:3', 'status-class:4', 'status-class:5']
 TIERS = {
     'quick': dict(runs=12000, wall=26, chunk=25, cfg=dict(max_requests=5, sizes=0, round_cap=6000)),
-    'thorough': dict(runs=150000, wall=600, chunk=200, cfg=dict(max_requests=10, sizes=1, round_cap=30000)),
+    'thorough': dict(runs=150000, wall=580, chunk=100, cfg=dict(max_requests=10, sizes=1, round_cap=30000)),
 }
 
 # finding keys of genuine defects (see findings/C15-*.py); the generator steers clear of their triggers when they are in ctx.avoid
